@@ -210,3 +210,8 @@ mod test {
     assert_eq!(size_of::<SgLang>(), size_of::<DynamicLang>());
   }
 }
+
+#[cfg(feature = "verif-hooks")]
+pub mod verif_hooks {
+  pub use super::injection::verif_hooks::*;
+}
